@@ -263,6 +263,7 @@ def c11(tier):
             {'kind': 'replay', 'model': M('agg_S4', 'agg', 'S4', maxlist=3), 'kinds': ['tiny', 'array', 'bitmap', 'run', 'chunky', 'top', 'mixed', 'keyspread'],
              'sample': 0.04 if q else 0.8},
             {'kind': 'drive', 'profile': 'aggregate', 'traces': 160 if q else 3000, 'steps': 40},
+            {'kind': 'drive', 'profile': 'aggsparse', 'traces': 300 if q else 6000, 'steps': 0},
             {'kind': 'replay', 'model': par_models()[0], 'kinds': ['chunks'], 'sample': 1.0, 'shards': 4},
         ],
     }
@@ -453,9 +454,13 @@ def c12(tier):
             {'kind': 'replay', 'model': ms[0], 'kinds': ['chunks'], 'sample': 1.0, 'shards': 4},
             {'kind': 'drive', 'profile': 'parallel', 'traces': 64 if q else 800, 'steps': 40, 'shards': 8, 'gomaxprocs': [1, 2, 4, 16]},
             {'kind': 'drive', 'profile': 'parallel', 'traces': 48 if q else 600, 'steps': 30, 'shards': 8, 'gomaxprocs': [1, 2, 4, 16], 'extra': ['-spread', '300']},
+            {'kind': 'drive', 'profile': 'aggsparse', 'traces': 96 if q else 2000, 'steps': 0, 'shards': 8, 'gomaxprocs': [1, 2, 4, 16]},
+            {'kind': 'drive', 'profile': 'aggsparse', 'traces': 64 if q else 1000, 'steps': 0, 'shards': 4, 'gomaxprocs': [2, 16], 'extra': ['-bits', '64']},
             {'kind': 'drive', 'cmd': 'bsi', 'profile': 'update', 'traces': 96 if q else 1500, 'steps': 30, 'shards': 6, 'gomaxprocs': [1, 2, 4, 16],
              'trace_module': 'TraceBSI.tla', 'trace_cfg': 'TraceBSI.cfg'},
             {'kind': 'drive', 'cmd': 'bsi', 'profile': 'query', 'traces': 96 if q else 1500, 'steps': 30, 'shards': 6, 'gomaxprocs': [1, 2, 4, 16],
+             'trace_module': 'TraceBSI.tla', 'trace_cfg': 'TraceBSI.cfg'},
+            {'kind': 'drive', 'cmd': 'bsi', 'profile': 'bulk', 'traces': 8 if q else 100, 'steps': 20, 'shards': 8, 'gomaxprocs': [2, 4, 16],
              'trace_module': 'TraceBSI.tla', 'trace_cfg': 'TraceBSI.cfg'},
             {'kind': 'gate', 'configs': sorted(GATE_CONFIGS), 'runs': 12 if q else 150, 'gomaxprocs': [1, 2, 4, 16]},
             {'kind': 'walk', 'configs': WALK_QUICK if q else WALK_THOROUGH, 'walks': 1500 if q else 40000, 'budget': 120 if q else 1500, 'gomaxprocs': [4, 16, 2, 1]},
@@ -476,6 +481,7 @@ def c17(tier):
              'kinds': ['tiny', 'array', 'threshold', 'run', 'chunky', 'top', 'mixed'], 'sample': 0.15 if q else 0.5, 'extra': B},
             {'kind': 'replay', 'model': M('agg_S4', 'agg', 'S4', maxlist=3), 'kinds': ['tiny', 'array', 'run', 'chunky', 'top', 'mixed'], 'sample': 0.01 if q else 0.3, 'extra': B},
             {'kind': 'drive', 'profile': 'all64', 'traces': 200 if q else 4000, 'steps': 50, 'extra': B},
+            {'kind': 'drive', 'profile': 'aggsparse', 'traces': 240 if q else 5000, 'steps': 0, 'extra': B},
             {'kind': 'drive', 'profile': 'iter64', 'traces': 80 if q else 1500, 'steps': 50, 'extra': B},
             {'kind': 'replay', 'model': M('iter_S7', 'iter', 'S7', depth=6, sim={'num': 400 if q else 8000, 'depth': 8, 'seed': 11}),
              'kinds': ['tiny', 'array', 'run', 'chunky', 'top', 'mixed'], 'sample': 0.05 if q else 0.3, 'extra': B},
@@ -545,6 +551,7 @@ def c19(tier):
             {'kind': 'replay', 'cmd': 'bsi', 'model': bsi_model('bsi_hist', 'hist', depth=10, sim={'num': 300 if q else 6000, 'depth': 12, 'seed': 3}),
              'kinds': ['x'], 'sample': 0.5 if q else 1.0},
             {'kind': 'drive', 'cmd': 'bsi', 'profile': 'update', 'traces': 1200 if q else 20000, 'steps': 40, 'shards': 12},
+            {'kind': 'drive', 'cmd': 'bsi', 'profile': 'bulk', 'traces': 12 if q else 200, 'steps': 30, 'shards': 12},
         ],
     }
 
@@ -552,7 +559,7 @@ def c19(tier):
 def c20(tier):
     q = tier == 'quick'
     return {
-        'rule': 'MCBSI.tla (TLC) enumerates every query x operator x in-range constants x found-set from every small map and the calls are replayed on both implementations; BSI.tla query clauses: CompareValue/CompareBigValue (LT LE EQ GE GT RANGE) with found-sets nil / subsets of existing columns / the index own existence bitmap, CompareBSI, BatchEqual/BatchEqualBig/BatchEqualValues (incl. duplicate and cube value lists), MinMax/MinMaxBig, Sum/SumBigValues, Transpose/IntersectAndTranspose, TransposeWithCounts, worker counts 0,1,2,3,16, on stored maps with mixed signs produced by random update histories; every result is compared by TLC with the predicate evaluated on the specified map; each query is issued twice and must answer the same (ResultIndependent), and the stored map must be unchanged by queries',
+        'rule': 'MCBSI.tla (TLC) enumerates every query x operator x in-range constants x found-set from every small map and the calls are replayed on both implementations; BSI.tla query clauses: CompareValue/CompareBigValue (LT LE EQ GE GT RANGE) with found-sets nil / subsets of existing columns / the index own existence bitmap, CompareBSI, BatchEqual/BatchEqualBig/BatchEqualValues (incl. duplicate and cube value lists), MinMax/MinMaxBig, Sum/SumBigValues, Transpose/IntersectAndTranspose, TransposeWithCounts, worker counts 0,1,2,3,16, on stored maps with mixed signs produced by random update histories; BULK traces: one abstract column is a class of 100000..140000 concrete columns written and read as one, query value lists carry 128..427 additional scattered values that no column can hold, so that the size-selected code paths (linear scans, batched goroutine fan-out) are the ones answering; every result is compared by TLC with the predicate evaluated on the specified map; each query is issued twice and must answer the same (ResultIndependent), and the stored map must be unchanged by queries',
         'assumptions': ['comparison constants lie inside the hull of the stored values for auto-sized indexes and inside the declared bounds for fixed-width ones',
                         'Transpose* only on non-negative values (values become column ids); TransposeWithCounts (64-bit) is given an explicit filter set',
                         'found sets contain existing columns only'],
@@ -560,6 +567,7 @@ def c20(tier):
         'phases': [
             {'kind': 'replay', 'cmd': 'bsi', 'model': bsi_model('bsi_step', 'step'), 'kinds': ['x'], 'sample': 0.03 if q else 0.6, 'extra': ['-opfilter', 'query']},
             {'kind': 'drive', 'cmd': 'bsi', 'profile': 'query', 'traces': 1200 if q else 20000, 'steps': 40, 'shards': 12},
+            {'kind': 'drive', 'cmd': 'bsi', 'profile': 'bulk', 'traces': 36 if q else 600, 'steps': 30, 'shards': 12},
         ],
     }
 
